@@ -116,12 +116,39 @@ def arpFields (p : Bytes) : Option ARPFields := do
   pure { htype := ← u16 p 0, ptype := ← u16 p 2, hlen := ← u8 p 4, plen := ← u8 p 5, oper := ← u16 p 6,
          sha := (p.drop 8).take 6, spa := (p.drop 14).take 4, tha := (p.drop 18).take 6, tpa := (p.drop 24).take 4 }
 
-/-- well-formed request: 4-byte addresses, 6-byte MACs, 16-bit port -/
-structure ReqOK (srcIP dstIP srcMAC dstMAC : Bytes) (dstPort : Nat) : Prop where
+/-- well-formed request of an IP probe: 4-byte addresses, 16-bit port and, unless the link has no
+    Ethernet header (VPN mode, where the MACs are not used and may be empty), 6-byte MACs -/
+structure ReqOK (vpn : Bool) (srcIP dstIP srcMAC dstMAC : Bytes) (dstPort : Nat) : Prop where
+  src4 : srcIP.length = 4
+  dst4 : dstIP.length = 4
+  port : dstPort < 65536
+  macs : vpn = false → srcMAC.length = 6 ∧ dstMAC.length = 6
+
+/-- well-formed ARP request: 4-byte addresses and a 6-byte source MAC (the destination is broadcast) -/
+structure ArpReqOK (srcIP dstIP srcMAC : Bytes) : Prop where
   src4 : srcIP.length = 4
   dst4 : dstIP.length = 4
   smac : srcMAC.length = 6
-  dmac : dstMAC.length = 6
-  port : dstPort < 65536
+
+/-- the IP datagram inside a frame: the frame itself in VPN mode, else what follows the Ethernet header
+    (cut to the IP datagram length, i.e. without Ethernet padding) -/
+def datagram (vpn : Bool) (frame : Bytes) (len : Nat) : Bytes :=
+  if vpn then frame else (frame.drop 14).take len
+
+/-- link layer of a non-VPN frame: requested MACs, EtherType, padded to the 60-byte minimum with zeros -/
+def LinkOK (frame : Bytes) (dstMAC srcMAC : Bytes) (etherType dgLen : Nat) : Prop :=
+  frame.take 6 = dstMAC ∧ (frame.drop 6).take 6 = srcMAC ∧ u16 frame 12 = some etherType ∧
+  frame.length = max 60 (14 + dgLen) ∧ ∀ b ∈ frame.drop (14 + dgLen), b = 0
+
+instance (frame dstMAC srcMAC : Bytes) (etherType dgLen : Nat) : Decidable (LinkOK frame dstMAC srcMAC etherType dgLen) := by
+  unfold LinkOK; exact inferInstance
+
+/-- RFC 793 / 3168 / 3540: the bit a flag name denotes in NS<<8 | CWR ECE URG ACK PSH RST SYN FIN -/
+def rfcFlagBit : String → Nat
+  | "fin" => 1 | "syn" => 2 | "rst" => 4 | "psh" => 8 | "ack" => 16 | "urg" => 32 | "ece" => 64 | "cwr" => 128
+  | "ns" => 256 | _ => 0
+
+/-- the flag set a list of names denotes -/
+def flagSet (names : List String) : Nat := names.foldl (fun acc n => acc ||| rfcFlagBit n) 0
 
 end SxVerif.Spec.Fill
